@@ -729,10 +729,49 @@ def _min_value(aff: Dict[str, int]) -> Optional[int]:
     return total
 
 
+def _callers_map(idx, res) -> Dict[int, List[Tuple[FuncInfo, ast.Call]]]:
+    out: Dict[int, List[Tuple[FuncInfo, ast.Call]]] = {}
+    for fn in list(idx.all_functions()):
+        for sc in [fn] + list(res.local_defs(fn).values()):
+            for call in [c for c in walk_no_nested(sc.node) if isinstance(c, ast.Call)]:
+                for t in res.resolve_call(sc, call):
+                    out.setdefault(id(t.node), []).append((sc, call))
+    return out
+
+
+def _generators_of(res, callers, sc: FuncInfo, name: str, depth: int = 0) -> List[Tuple[FuncInfo, FuncInfo, ast.Call]]:
+    """Functions whose return value may be bound to `name` in `sc`: [(generator, where-bound, call)].
+    Follows a local `name = g(...)` assignment, or, when `name` is a parameter, the actual arguments at the
+    call sites of `sc` (bounded depth)."""
+    out = []
+    for n in walk_no_nested(sc.node):
+        if isinstance(n, ast.Assign) and len(n.targets) == 1 and isinstance(n.targets[0], ast.Name) \
+                and n.targets[0].id == name and isinstance(n.value, ast.Call):
+            for g in res.resolve_call(sc, n.value):
+                out.append((g, sc, n.value))
+    if out or depth >= 3:
+        return out
+    params = sc.params()
+    if name in params:
+        i = params.index(name)
+        off = 1 if (sc.cls is not None and params and params[0] in ("self", "cls")) else 0
+        for (caller, call) in callers.get(id(sc.node), []):
+            actual = None
+            if i - off < len(call.args) and i - off >= 0:
+                actual = call.args[i - off]
+            for kw in call.keywords:
+                if kw.arg == name:
+                    actual = kw.value
+            if isinstance(actual, ast.Name):
+                out.extend(_generators_of(res, callers, caller, actual.id, depth + 1))
+    return out
+
+
 def clause_d(ctx: Context, idx, reg) -> None:
     res = get_resolver(idx)
     njit_funcs = {id(f.node): f for f in idx.all_functions() if is_njit(f)}
     ctx.require_floor("njit functions", len(njit_funcs), 40)
+    callers = _callers_map(idx, res)
     n_sites = 0
     n_list_args = 0
     for fn in list(idx.all_functions()):
@@ -748,15 +787,11 @@ def clause_d(ctx: Context, idx, reg) -> None:
                 for arg in list(call.args) + [k.value for k in call.keywords]:
                     if not isinstance(arg, ast.Name):
                         continue
-                    origin = None
-                    for n in walk_no_nested(sc.node):
-                        if isinstance(n, ast.Assign) and len(n.targets) == 1 and isinstance(n.targets[0], ast.Name) \
-                                and n.targets[0].id == arg.id and isinstance(n.value, ast.Call):
-                            origin = n.value
-                    if origin is None:
-                        continue
-                    gens = res.resolve_call(sc, origin)
-                    for gfn in gens:
+                    seen_gen = set()
+                    for (gfn, where, _origin) in _generators_of(res, callers, sc, arg.id):
+                        if id(gfn.node) in seen_gen:
+                            continue
+                        seen_gen.add(id(gfn.node))
                         lens = _list_lengths(gfn)
                         if not lens:
                             continue
@@ -782,14 +817,16 @@ def clause_d(ctx: Context, idx, reg) -> None:
                         guarded = bool(empties) and _len_guarded(sc, call, arg.id)
                         verdict = "ok" if not empties else ("guarded" if guarded else "VIOLATION")
                         ctx.instance("C13d", ikey, verdict, f"{ctx.relpath(sc.file)}:{call.lineno}",
-                                     lists={n: (_fmt(lens[n]) if lens[n] is not None else "unknown") for n in returned})
+                                     lists={n: (_fmt(lens[n]) if lens[n] is not None else "unknown") for n in returned},
+                                     bound_in=where.qualname)
                         if empties and not guarded:
                             name, aff, mn = empties[0]
                             ctx.violation(
                                 "C13d", ikey, sc.file, call.lineno,
                                 f"`{arg.id}` carries {len(empties)} list(s) built in {gfn.name} (e.g. `{name}`) of length {_fmt(aff)}, which is 0 for "
                                 f"an admissible cutoff >= 1; it is passed from interpreted code to the njit function "
-                                f"{targets[0].name}, and numba cannot type an empty reflected list (ValueError on a valid program)",
+                                f"{targets[0].name} without a dominating emptiness test, and numba cannot type an empty reflected "
+                                f"list (ValueError on a valid program)",
                                 norm(call)[:100])
     ctx.count("njit call sites from interpreted code", n_sites)
     ctx.require_floor("list-valued arguments crossing the njit boundary", n_list_args, 5)
